@@ -16,7 +16,7 @@ BRIDGE = {
     "C02": ["reservedNames", "pyKeywords"],
     "C03": ["pyKeywords", "transportUnsafeExtra", "snake1", "snake2", "snake3", "snake4"],
     "C04": ["reservedNames"],
-    "C05": ["reservedNames"],
+    "C05": ["reservedNames", "pyKeywords"],
     "C06": ["reservedNames", "fieldHeaders"],
     "C07": [],
     "C08": [],
@@ -200,7 +200,15 @@ class Driver:
         if not ops:
             return []
         data = "".join(json.dumps(o, ensure_ascii=False) + "\n" for o in ops)
-        p = subprocess.run(self.cmd, cwd=LEAN_DIR, input=data, capture_output=True, text=True, timeout=timeout)
+        for attempt in range(60):
+            try:
+                p = subprocess.run(self.cmd, cwd=LEAN_DIR, input=data, capture_output=True, text=True, timeout=timeout)
+                break
+            except (FileNotFoundError, PermissionError, OSError):
+                # the native driver is being re-linked by a concurrent `lake build driver` (another check): wait for it
+                if attempt == 59:
+                    raise
+                time.sleep(2)
         lines = [ln for ln in p.stdout.split("\n") if ln.strip()]
         if len(lines) != len(ops):
             raise RuntimeError(f"driver returned {len(lines)} lines for {len(ops)} ops: {p.stderr[-500:]}")
